@@ -330,10 +330,14 @@ Hypothesis Hlossy : zlossy C cget cadd.
 Definition zentry_x (s : snap) (code : N) (args : list ref) (nums : list nat) (r : ref) : Prop :=
   match args, nums with
   | [f; g], [] =>
-    (code = zcode_symm -> exists P Q, ZDen s f P /\ ZDen s g Q /\ ZDen s r (pxor P Q)) /\
-    (code = zcode_restrict ->
+    code = zcode_symm -> exists P Q, ZDen s f P /\ ZDen s g Q /\ ZDen s r (pxor P Q)
+  | [f; g], [n] =>
+    (* Restrict entries are keyed by the number of levels (/repo f8637cd); an entry keyed
+       with another number of levels than the table's says nothing (add_vars keeps the
+       apply cache: entries of smaller numbers of levels linger, they are not looked up) *)
+    code = zcode_restrict -> n = nlevels s ->
        exists P id nd M, ZDen s f P /\ f = RN id /\ find_node s id = Some nd /\
-         ZCube s M (nlevel nd) g /\ ZDen s r (prestr (nlevels s) M (nlevel nd) P))
+         ZCube s M (nlevel nd) g /\ ZDen s r (prestr (nlevels s) M (nlevel nd) P)
   | [f; g; h], [] =>
     code = zcode_ite ->
       exists P Q R, ZDen s f P /\ ZDen s g Q /\ ZDen s h R /\ ZDen s r (pite P Q R)
@@ -361,14 +365,14 @@ Lemma zentry_x_extends : forall s s' code args nums r, ZbddOK s -> extends s s' 
   zentry_x s code args nums r -> zentry_x s' code args nums r.
 Proof.
   intros s s' code args nums r B X. unfold zentry_x.
-  destruct args as [|f [|g [|h [|x rest]]]]; auto; destruct nums as [|v rest']; auto.
-  - intros [H7 H3]. split.
-    + intros Hc. destruct (H7 Hc) as (P & Q & DF & DG & DR). exists P, Q.
-      repeat split; eapply zden_extends; eauto.
-    + intros Hc. destruct (H3 Hc) as (P & id & nd & M & DF & -> & En & Hcu & DR).
-      exists P, id, nd, M. split; [eapply zden_extends; eauto|]. split; [reflexivity|].
-      split; [apply (ext_nodes _ _ X); exact En|]. split; [apply (zcube_extends s s' _ _ _ X Hcu)|].
-      rewrite (ext_nlevels _ _ X). eapply zden_extends; eauto.
+  destruct args as [|f [|g [|h [|x rest]]]]; auto; destruct nums as [|v [|w rest']]; auto.
+  - intros H7 Hc. destruct (H7 Hc) as (P & Q & DF & DG & DR). exists P, Q.
+    repeat split; eapply zden_extends; eauto.
+  - intros H3 Hc Hv. rewrite (ext_nlevels _ _ X) in Hv.
+    destruct (H3 Hc Hv) as (P & id & nd & M & DF & -> & En & Hcu & DR).
+    exists P, id, nd, M. split; [eapply zden_extends; eauto|]. split; [reflexivity|].
+    split; [apply (ext_nodes _ _ X); exact En|]. split; [apply (zcube_extends s s' _ _ _ X Hcu)|].
+    rewrite (ext_nlevels _ _ X). eapply zden_extends; eauto.
   - intros H8 Hc. destruct (H8 Hc) as (P & Q & R & DF & DG & DH & DR). exists P, Q, R.
     repeat split; eapply zden_extends; eauto.
 Qed.
@@ -402,8 +406,9 @@ Lemma zentry_x_other : forall s code args nums r,
   code <> zcode_symm -> code <> zcode_restrict -> code <> zcode_ite -> zentry_x s code args nums r.
 Proof.
   intros s code args nums r H7 H3 H8. unfold zentry_x.
-  destruct args as [|f [|g [|h [|x rest]]]]; auto; destruct nums as [|v rest']; auto.
-  - split; intros Hc; contradiction.
+  destruct args as [|f [|g [|h [|x rest]]]]; auto; destruct nums as [|v [|w rest']]; auto.
+  - intros Hc. contradiction.
+  - intros Hc. contradiction.
   - intros Hc. contradiction.
 Qed.
 
